@@ -20,7 +20,7 @@ type SyncView struct {
 	FullSync bool   // the sync got past its gates and listed pods
 	Faulty   bool   // a fault was injected in this transition
 	Canary   map[string]bool
-	Ignored  map[string]bool // nodes hidden from this sync (canary nodes for the active role)
+	Ignored  map[string]bool // nodes hidden from this sync (canary nodes for the active role, existing non-canary nodes for the canary role)
 	Nodes    map[string]*corev1.Node
 	Eligible map[string]bool          // by the syncing replica set's template
 	Own      map[string][]*corev1.Pod // own pods of the EDS by target node (phase Unknown excluded)
@@ -106,6 +106,11 @@ func BuildSyncView(pre *State, log []*Call, ns, name string) *SyncView {
 	for _, n := range pre.Nodes() {
 		v.Nodes[n.Name] = n
 		v.Eligible[n.Name] = Eligible(n, &rs.Spec.Template)
+		if v.Role == "canary" && !v.Canary[n.Name] {
+			// the canary replica set manages the canary nodes only; the existing nodes outside the list are the active
+			// replica set's business (a node that no longer exists is anybody's to clean up)
+			v.Ignored[n.Name] = true
+		}
 	}
 	// during a declared migration the pods controlled by the named old DaemonSet (which must exist) stand for the
 	// previous version on their nodes
@@ -301,6 +306,33 @@ func MonC04(c *MonCtx) {
 					if !v.Canary[TargetNode(p)] {
 						c.Violate("C04a", "C04a/confine: pod of a non-active template created outside status.canary.nodes while a canary is in progress",
 							fmt.Sprintf("node %s role %s canary=%v", TargetNode(p), v.Role, v.EDS.Status.Canary.Nodes))
+					}
+				}
+			}
+			// (c') "every other eligible node keeps being served with the active template": the canary replica set's sync does
+			// not take away the only daemon pod of a node outside status.canary.nodes that exists and is eligible for the
+			// template of the replica set that pod belongs to (a canary template may well be narrower than the active one)
+			if v.Role == "canary" {
+				for _, d := range v.Deletes {
+					p := v.PodByKey[d.NS+"/"+d.Name]
+					if p == nil || p.DeletionTimestamp != nil || p.Status.Phase == corev1.PodFailed {
+						continue
+					}
+					n := TargetNode(p)
+					node := v.Nodes[n]
+					prs := c.Pre.ERS(ns, p.Labels[v1.ExtendedDaemonSetReplicaSetNameLabelKey])
+					if n == "" || v.Canary[n] || node == nil || prs == nil || prs.Name != v.EDS.Status.ActiveReplicaSet || !Eligible(node, &prs.Spec.Template) {
+						continue
+					}
+					others := 0
+					for _, q := range v.Own[n] {
+						if q.Name != p.Name && q.DeletionTimestamp == nil && q.Status.Phase != corev1.PodFailed {
+							others++
+						}
+					}
+					c.Antecedent("C04c/canary-deletes-elsewhere")
+					if others == 0 {
+						c.Violate("C04c", "C04c/others: the canary replica set's sync deleted the active replica set's only pod on a node outside status.canary.nodes that is eligible for the active template", fmt.Sprintf("node %s pod %s", n, p.Name))
 					}
 				}
 			}
